@@ -199,6 +199,42 @@ def _membership_only(fn, call, depth=0) -> bool:
     return False
 
 
+def ledger_survives_prepare_rule(ctx: Ctx, rid: str):
+    """A second schedule() skips the tasks that are placed already; their bookings survive only in the per-slot ledgers, so nothing
+    the per-run preparation of a resource reaches may empty those ledgers (the slot table itself is rebuilt)  (C12 R12.3 / C01 R01.7)."""
+    from .common import heap_writes
+    repo = ctx.repo
+    rprep = repo.func("ResourceScenario.prepareScheduling")
+    scope = sorted((f for f in ctx.cg.reach([rprep]) if f.cls is not None and f.cls.name == "ResourceScenario"), key=lambda f: f.key)
+    if rprep not in scope:
+        scope.insert(0, rprep)
+    for fld in ("slotSecondsUsed", "slotTaskUsage"):
+        bad = []
+        for fn in scope:
+            ws = heap_writes(ctx, fn, fld) if fn is rprep else []
+            # plain re-assignment `self.<fld> = {}` and `self.<fld>.clear()` empty the ledger
+            re_assign = [n for n in own_nodes(fn) if isinstance(n, (ast.Assign, ast.AnnAssign))
+                         and any(norm(t) == f"self.{fld}" for t in (n.targets if isinstance(n, ast.Assign) else [n.target]))]
+            cleared = [n for n in own_nodes(fn) if isinstance(n, ast.Call) and isinstance(n.func, ast.Attribute) and n.func.attr == "clear"
+                       and norm(n.func.value) == f"self.{fld}"]
+            if ws or re_assign or cleared:
+                bad.append(fn)
+        ok = not bad
+        ctx.ob(rid, f"{rprep.qual} (and the {len(scope) - 1} methods it reaches): leaves {fld} alone",
+               (bad[0] if bad else rprep), ok,
+               "bookings of tasks that a re-run skips stay on record" if ok else
+               f"{bad[0].qual} empties {fld} when a run is prepared: on a second schedule() the tasks placed by the first run are skipped, "
+               "their slots look free (a task that failed the first time is booked on top of them) and the cost of their work is lost",
+               key=f"{rid}|ResourceScenario.prepareScheduling|{fld}")
+
+
+def run_extra(ctx: Ctx):
+    # ---------------------------------------------------------------- R12.6 answers never come from state that outlives the question
+    from .common import process_state_rule
+    process_state_rule(ctx, "R12.6", [ctx.repo.func("Project.schedule"), ctx.repo.func("ProjectFileParser.parse")],
+                       "a later run is answered with what an earlier run computed", census=False)
+
+
 def run(ctx: Ctx):
     repo = ctx.repo
     entries = [repo.func("ProjectFileParser.parse"), repo.func("Project.schedule"), repo.func("Report.generate"),
@@ -406,20 +442,7 @@ def run(ctx: Ctx):
     ctx.ob("R12.3", f"{tss.qual}: marks the task scheduled", tss, ok, "property['scheduled'] = True after a successful walk" if ok else
            "a placed task is not marked as scheduled", key="R12.3|TaskScenario.schedule|mark")
 
-    # a second schedule() skips the tasks that are placed already; their bookings survive only in the per-slot ledgers, so the
-    # per-run preparation of a resource must leave those ledgers alone (the slot table itself is rebuilt)
-    from .common import heap_writes
-    rprep = repo.func("ResourceScenario.prepareScheduling")
-    for fld in ("slotSecondsUsed", "slotTaskUsage"):
-        ws = heap_writes(ctx, rprep, fld)
-        # plain re-assignment `self.<fld> = {}` is a write too
-        re_assign = [n for n in own_nodes(rprep) if isinstance(n, ast.Assign) and any(norm(t) == f"self.{fld}" for t in n.targets)]
-        ok = not ws and not re_assign
-        ctx.ob("R12.3", f"{rprep.qual}: leaves {fld} alone", rprep, ok,
-               "bookings of tasks that a re-run skips stay on record" if ok else
-               f"prepareScheduling clears {fld}: on a second schedule() the tasks placed by the first run are skipped, their slots look free "
-               "and a task that failed the first time is booked on top of them",
-               key=f"R12.3|ResourceScenario.prepareScheduling|{fld}")
+    ledger_survives_prepare_rule(ctx, "R12.3")
     # ---------------------------------------------------------------- R12.4
     ab = repo.cls("AttributeBase")
     for nm, src in (("reset", "self._type.default"), ("inherit", "value")):
